@@ -266,7 +266,7 @@ func runC04x(c c04Case) (*vstat.Failure, c04Res) {
 		done := make(chan any, 1)
 		go func() {
 			defer func() { done <- recover() }()
-			v.ProcessLogLine(nil, hx.Line("/var/log/x.log", string(l)))
+			hx.Run(v, "/var/log/x.log", string(l))
 		}()
 		select {
 		case p := <-done:
